@@ -3,6 +3,7 @@
 //!   P / T / PUB / SUB / W / R accept  l=<0|1>  (install a recording listener)  and  m=<K,K,...>  (listener
 //!   mask; kinds IT ODM RDM OIQ RIQ SL SR DOR DA LL LC PM SM; `-` = empty);  T2 = topic of a second type
 //!   (same type NAME, different structure) to raise InconsistentTopic
+//!   jump <ns>     move the clock without visiting intermediate timer deadlines, then settle
 //!   ev            print and clear the recorded listener calls: `ev <label>:<kind>:<count> ...` (sorted);
 //!                 labels P<i> PUB<i> SUB<i> W<i> R<i> T<i> (creation index of the entity owning the listener)
 //! Scenario interpreter over the simulated stack (see vh::sim).  One scenario per
@@ -513,6 +514,18 @@ impl World {
                 }
                 s
             }
+            "jump" => {
+                // move the simulated clock WITHOUT stopping at the timer deadlines on the way, then let the
+                // worker run once.  (`adv` stops exactly at the instant now - last_write == deadline period, where
+                // time_until_missed_*_deadline is 0 but the check uses a strict `>`: with a frozen clock the
+                // worker then spins on delay(0) forever.)
+                {
+                    let mut g = self.sim.shared.now_ns.lock().unwrap();
+                    *g += n(1);
+                }
+                self.sim.settle();
+                "jump".into()
+            }
             "adv" => {
                 self.sim.advance(n(1));
                 "adv".into()
@@ -691,6 +704,21 @@ fn main() {
         // child: one scenario on stdin
         let mut line = String::new();
         std::io::stdin().lock().read_line(&mut line).unwrap();
+        // watchdog: a scenario that runs away (time or memory) ends as `HANG`
+        std::thread::spawn(|| {
+            let t0 = std::time::Instant::now();
+            loop {
+                std::thread::sleep(std::time::Duration::from_millis(100));
+                let rss_pages = std::fs::read_to_string("/proc/self/statm")
+                    .ok()
+                    .and_then(|s| s.split_whitespace().nth(1).and_then(|x| x.parse::<u64>().ok()))
+                    .unwrap_or(0);
+                if t0.elapsed().as_secs() > 90 || rss_pages > 400_000 {
+                    println!("HANG");
+                    std::process::exit(4);
+                }
+            }
+        });
         std::panic::set_hook(Box::new(|info| {
             let s = info.location().map(|l| format!("{}:{}", l.file(), l.line())).unwrap_or_default();
             println!("PANIC {}", s);
